@@ -215,6 +215,11 @@ def gen_pair(rng):
         tsrc = rng.choice([f"Quantity(0*{unit})" if unit != "S.One" else "S.Zero", f"Quantity(oo, dimension=({unit}).dimension)"
             if unit.startswith("u.") and "*" not in unit and "/" not in unit else "Quantity(oo)"])
         kind += "+special-target"
+        if mk == "special":
+            # (infinite or NaN value) / (zero or infinite "unit") is not a conversion to a unit: SymPy evaluates oo/0 and
+            # oo*(1/0) differently, so the model would over-constrain harmless refactorings
+            vsrc = f"Quantity(({rng.choice(unitgen.EXACT_MAGS)})*{unitgen.pick_unit(rng, cls)})" if cls != "dimensionless" else "Quantity(S(7))"
+            mk = "exact"
     if rng.random() < 0.06:
         k = rng.choice([1, -1, 2])
         vsrc = f"Quantity(Quantity({vsrc}).scale_factor, dimension=Quantity({vsrc}).dimension*angle_type**{k})"
